@@ -88,10 +88,17 @@ def classify_crash(stderr, rc):
     return 'exit', 'exit:%d' % rc, False
 
 
-def run_batch(exe, cases, ctx, label='dec', on_crash=None, timeout=900):
+def run_batch(exe, cases, ctx, label='dec', on_crash=None, timeout=900, env_extra=None):
     """Runs all cases; returns {id: Result}.  A fatal report is attributed to the marked case,
     recorded through on_crash(case, cls, key, stderr) and the batch restarts after that case."""
-    return run_marked_batch(exe, cases, ctx, label, on_crash, timeout, parse_results, binary_out=True)
+    return run_marked_batch(exe, cases, ctx, label, on_crash, timeout, parse_results, binary_out=True, env_extra=env_extra)
+
+
+def fill_env(byte):
+    """environment for the uninitialised-memory differential: stack scribble in the harness + ASan's fill of fresh heap blocks"""
+    from . import build
+    return {'VERIF_STACK_FILL': str(byte),
+            'ASAN_OPTIONS': build.SAN_ENV['ASAN_OPTIONS'] + ':max_malloc_fill_size=268435456:malloc_fill_byte=%d' % byte}
 
 
 def run_marked_batch(exe, cases, ctx, label, on_crash, timeout, parser, binary_out=True, extra_args=(), env_extra=None,
